@@ -151,7 +151,7 @@ func c10Diff2[F, S any](n int, same func(F, S) bool, sameF func(F, F) bool) {
 
 //verif:opt maxpaths=30000 reach=accepted,rejected
 func Harness_C10_um_s6() {
-	c10Diff2[c10S6, c10S6std](2+vChoice("len", 6+2*vTier()),
+	c10Diff2[c10S6, c10S6std](2+vChoice("len", 6), // (inputs of 2..7 bytes in both tiers: one more byte exceeds 30000 paths)
 		func(f c10S6, s c10S6std) bool { return f.V == s.V && c10SameRaw(f.R, s.R) },
 		func(a, b c10S6) bool { return reflect.DeepEqual(a, b) })
 }
@@ -165,7 +165,7 @@ func Harness_C10_um_s7() {
 
 //verif:opt maxpaths=30000 reach=accepted,rejected
 func Harness_C10_um_s8() {
-	c10Diff2[c10S8, c10S8std](2+vChoice("len", 6+2*vTier()),
+	c10Diff2[c10S8, c10S8std](2+vChoice("len", 6),
 		func(f c10S8, s c10S8std) bool { return f.A == s.A && c10SameRaw(f.R, s.R) },
 		func(a, b c10S8) bool { return reflect.DeepEqual(a, b) })
 }
